@@ -153,7 +153,7 @@ impl Scenario for Lifecycle {
             }
             match k {
                 K_INPUT => {
-                    let len = if aligned_bias { b * rng.range(0, 3) as usize } else { hashctx::chunk_len(rng, b, fill, false).min(4096) };
+                    let len = if aligned_bias { b * rng.range(0, 3) as usize } else if rng.chance(1, 500) { hashctx::big_len(rng, false) } else { hashctx::chunk_len(rng, b, fill, false).min(4096) };
                     let dseed = match rng.below(16) { 0 => 0, 1 => 1, _ => rng.data_seed() };
                     t.ops.push(Op::new(h as u8, K_INPUT).len(len).seed(dseed).off(rng.below(32) as u8));
                     sh[h].0 = fill + len;
@@ -222,7 +222,7 @@ impl Scenario for Lifecycle {
             match op.k {
                 K_INPUT => {
                     let hd = hs[h].as_mut().unwrap();
-                    let len = (op.len as usize).min(8192);
+                    let len = (op.len as usize).min(300_000);
                     let a = Aligned::new(op.seed, len, (op.off % 32) as usize);
                     let r = guarded(|| hd.obj.input(a.get()));
                     if hd.done.is_some() {
